@@ -75,6 +75,7 @@ type WorkQ struct {
 	max    int
 	dead   time.Time
 	over   bool
+	stop   func() bool // fail fast: a violation has been recorded, further paths add nothing to the verdict
 }
 
 func NewWorkQ(max int, deadline time.Time) *WorkQ {
@@ -96,6 +97,10 @@ func (q *WorkQ) Pop() ([]int, bool) {
 	q.mu.Lock()
 	defer q.mu.Unlock()
 	for {
+		if q.stop != nil && q.stop() {
+			q.cond.Broadcast()
+			return nil, false
+		}
 		if q.popped >= q.max || time.Now().After(q.dead) {
 			if len(q.items) > 0 {
 				q.over = true
